@@ -104,7 +104,8 @@ func (g *Gateway) extractHostname(host string) (hostname string, err error) {
 		err = fmt.Errorf("gateway: invalid hostname for forwarding")
 		return
 	}
-	if slices.Contains(g.RootDomains, parts[1]) {
+	// host names are case-insensitive: compare the remainder in its canonical (lower) case
+	if slices.Contains(g.RootDomains, strings.ToLower(parts[1])) {
 		hostname = parts[0]
 	} else {
 		hostname = host
